@@ -9,6 +9,6 @@ for d in $list; do
   id=$(basename $d); prop=$(/venv/bin/python -c "import json;print(json.load(open('$d/meta.json'))['breaks_property'])")
   if grep -q "\"status\": \"neutralised\"" $d/meta.json; then echo "NEUTRAL  $id (no longer a defect on the repaired tree)"; continue; fi
   if grep -q "\"status\": \"out-of-scope\"" $d/meta.json; then echo "OUTSIDE  $id (needs something the property does not quantify over)"; continue; fi
-  out=$(LINES_MAX=100000 tools/seed_run.sh $d $prop ${1:-quick} 2>&1)
+  out=$(LINES_MAX=100000 timeout -k 10 1500 tools/seed_run.sh $d $prop ${1:-quick} 2>&1)
   if echo "$out" | grep -q "violations=0 "; then echo "MISSED   $id ($prop)"; elif echo "$out" | grep -q "violations="; then echo "DETECTED $id ($prop) $(echo "$out" | grep -c 'key=') keys"; else echo "ERROR    $id: $out" | head -3; fi
 done
